@@ -522,4 +522,8 @@ def run(chk, fb, tier):
     chk.rule("D6", "E7: an early return guarded by equalities on scalar parameters is taken only when the element-wise update that follows is the identity under those equalities")
     _d6(chk, fb)
     chk.note("skipped in D1 (data-dependent indices): %s" % KNOWN_SKIPS)
+    from . import argswap as _argswap
+    chk.rule("DA", "argument/parameter name agreement at forwarding calls in the anchored units (same-typed parameters must not be swapped)")
+    _af = ('src/Bpp/Numeric/Matrix/Matrix.h', 'src/Bpp/Numeric/Matrix/MatrixTools.h')
+    _argswap.check(chk, fb, "DA", [f_ for f_ in fb.concrete_fns() if f_.body is not None and any(f_.relfile.endswith(x_) for x_ in _af)], 1)
     chk.assume("kernels are analysed for RowMatrix<double>; the Matrix interface is the same for the other storage classes (D2 checks their accessors)")
